@@ -10,14 +10,15 @@
   Distribution.to_y0 (_list_to_y0)          Print.dist
   Probability._help_level_2_distribution    Print.level2
   Probability.to_y0                         Print.prob none
-  PopulationProbability.to_y0               Print.prob (some pop)
+  PopulationProbability.to_y0               Print.prob (some pop), Print.pop
   Product.to_y0                             Print.expr (.prod fs)  = Print.exprs fs
   Sum.to_y0                                 Print.expr (.sum e rs)
   Fraction.to_y0(parens)                    Print.fracInner / Print.expr (.frac n d)
   One.to_y0 / Zero.to_y0 / QFactor.to_y0    Print.expr .one / .zero / (.q d c)
 
   The model is of the FIXED code (fix-print): the denominator of a fraction is parenthesised when it
-  is a product (F5), the `P[...]` subscripts are printed in `_sort_interventions` order (F4).
+  is a product (F5), the `P[...]` subscripts are printed in `_sort_interventions` order (F4), the population
+  `TARGET_DOMAIN` is printed as the constant `TARGET_DOMAIN` (its name `pi*` is not an identifier).
   Core Lean only.
 -/
 import Y0.Model.Expr
@@ -26,7 +27,7 @@ namespace Y0
 
 /-- the names of the parser's table that are not variables -/
 inductive Kw where
-  | P | PP | Sum | Q | One | Zero
+  | P | PP | Sum | Q | One | Zero | TargetDomain
   deriving DecidableEq, Repr, Inhabited
 
 /-- Python tokens of the sub-language the printers emit (plus `~` and `&`, which the parser accepts) -/
@@ -89,10 +90,21 @@ def l2ivs (is : List Iv) : List Tok :=
 /-- `Variable(name=v.name, star=v.star)` -/
 def strip (v : Var) : Var := { name := v.name, star := v.star, isIv := v.isIv, ivs := [] }
 
+/-- the name of `y0.dsl.TARGET_DOMAIN = Population("pi*")` in the harness's name table (harness/oracles/print_codec.py
+puts "pi*" at its place in Python's string order; the harness asserts the index at import) -/
+def targetName : Name := 525
+
+/-- `TARGET_DOMAIN` -/
+def targetDomain : Var := Var.plain targetName
+
+/-- the population inside `PP[…]` (FIXED code): the target domain, whose name "pi*" is not an identifier, is written
+as the DSL constant `TARGET_DOMAIN`; any other population as the variable it is -/
+def pop (v : Var) : List Tok := if v = targetDomain then [.kw .TargetDomain] else var v
+
 /-- `P` or `PP[pop]` -/
 def probHead : Option Var → List Tok
   | none => [.kw .P]
-  | some pop => .kw .PP :: .lbr :: var pop ++ [.rbr]
+  | some p => .kw .PP :: .lbr :: pop p ++ [.rbr]
 
 /-- `Probability.to_y0` / `PopulationProbability.to_y0` -/
 def prob (pop : Option Var) (c p : List Var) : List Tok :=
